@@ -172,6 +172,8 @@ SITES = {
     'save_indexed': ('lib_trainer/save_pcfg_data.py', 'save_indexed_counters'),
     'save_pcfg_data': ('lib_trainer/save_pcfg_data.py', 'save_pcfg_data'),
     'run_trainer': ('lib_trainer/run_trainer.py', 'run_trainer'),
+    'cfg_filename_list': ('lib_trainer/config_file.py', 'create_filename_list'),
+    'cfg_create': ('lib_trainer/config_file.py', 'create_config_file'),
     # trainer input
     'read_password': ('lib_trainer/trainer_file_input.py', 'TrainerFileInput.read_password'),
     'tfi_init': ('lib_trainer/trainer_file_input.py', 'TrainerFileInput.__init__'),
